@@ -11,14 +11,20 @@
 (*   (53,3,7),(101,12,11),(109,11,13)} are the toy curves on which TLC     *)
 (*   enumerates everything.                                                *)
 (***************************************************************************)
-EXTENDS BigNat, Naturals, Sequences, FiniteSets
+EXTENDS BigNat, Naturals, Sequences, FiniteSets, SequencesExt
 
 CONSTANTS LEN,    \* bytes per field element / scalar / point encoding
           P,      \* field prime (LEN bytes)
           D,      \* curve constant d (LEN bytes, canonical)
           L,      \* prime order of the base point (LEN bytes)
           BASE,   \* compressed encoding of the base point
-          T8ENC   \* compressed encoding of a point of exact order 8
+          T8ENC,  \* compressed encoding of a point of exact order 8
+          \* Derived constants.  TLC re-evaluates a definition that depends on a substituted
+          \* constant at every use, so each derived constant is itself a CONSTANT bound to a
+          \* literal (spec/Params.tla, generated) and ASSUMEd equal to its definition where
+          \* the definition is stated (Field, Edwards, Montgomery, Ristretto).
+          SQRT_M1, EXP_P58, EXP_QR, EXP_P38, BASEPT, T8PT, D2,
+          SQRT_AD_MINUS_ONE, INVSQRT_A_MINUS_D, ONE_MINUS_D_SQ, D_MINUS_ONE_SQ, MONT_A, APLUS2_OVER_FOUR
 
 NBITS == 8 * LEN            \* bits in an encoding
 FBITS == 8 * LEN - 1        \* bits in a field element
